@@ -177,6 +177,51 @@ Proof.
   subst y. apply Hni. apply in_map_iff. exists (x, r2). split; [reflexivity|exact Hy].
 Qed.
 
+Lemma declare_report_cap : forall ds sc sc', declare new_report ds sc = Ok sc' -> sc_nperm sc <= 255 -> sc_nperm sc' <= 255.
+Proof.
+  induction ds as [|[[v n] t] r IH]; intros sc sc' H Hb; cbn [declare] in H; [inversion H; subst; exact Hb|].
+  unfold new_report in H. destruct (255 <=? sc_nperm sc) eqn:E; [discriminate|]. apply N.leb_gt in E. cbn [bind] in H.
+  eapply IH; [exact H|]. cbn. lia.
+Qed.
+
+Definition cnt_step (n : N) (i : instr) : N := if reg_is_report (i_res i) then (n + 1) mod 256 else n.
+
+Lemma fold_cnt l : forall a, a + N.of_nat (length (filter is_rep_entry l)) < 256 ->
+  (forall x r, In (x, r) l -> is_rep_entry (x, r) = true -> def_of_reg r <> None) ->
+  fold_left cnt_step (def_instrs l) a = a + N.of_nat (length (filter is_rep_entry l)).
+Proof.
+  induction l as [|[x r] t IH]; intros a Ha Hd; [cbn; lia|].
+  rewrite def_instrs_flat. cbn [flat_map snd]. rewrite <- def_instrs_flat. cbn [filter].
+  assert (Hd' : forall y ry, In (y, ry) t -> is_rep_entry (y, ry) = true -> def_of_reg ry <> None)
+    by (intros y ry Hy; apply Hd; right; exact Hy).
+  destruct (is_rep_entry (x, r)) eqn:Er.
+  - cbn [filter length] in Ha. rewrite Er in Ha. cbn [length] in Ha.
+    specialize (Hd x r (or_introl eq_refl) Er). destruct (def_of_reg r) as [i|] eqn:Ed; [|congruence].
+    cbn [app fold_left]. assert (Hres : reg_is_report (i_res i) = true).
+    { unfold is_rep_entry in Er. cbn [snd] in Er. destruct r as [j ty vol|n|b|j ty|j ty|j ty|j ty vol|j ty|]; try discriminate Er.
+      destruct ty as [[b|]|s|[n|]|]; try discriminate Ed; inversion Ed; reflexivity. }
+    unfold cnt_step at 2. rewrite Hres. rewrite N.mod_small by lia. rewrite IH; [cbn [length]; lia|lia|exact Hd'].
+  - cbn [filter] in Ha. rewrite Er in Ha.
+    destruct (def_of_reg r) as [i|] eqn:Ed.
+    + cbn [app fold_left]. assert (Hres : reg_is_report (i_res i) = false).
+      { unfold is_rep_entry in Er. cbn [snd] in Er. destruct r as [j ty vol|n|b|j ty|j ty|j ty|j ty vol|j ty|]; try discriminate Ed; try discriminate Er.
+        destruct ty as [[b|]|s|[n|]|]; try discriminate Ed; inversion Ed; reflexivity. }
+      unfold cnt_step at 2. rewrite Hres. apply IH; [exact Ha|exact Hd'].
+    + cbn [app]. apply IH; [exact Ha|exact Hd'].
+Qed.
+
+Lemma filter_all_true {A} (p : A -> bool) l : (forall a, In a l -> p a = true) -> filter p l = l.
+Proof.
+  induction l as [|x t IH]; intros H; [reflexivity|]. cbn [filter]. rewrite (H x (or_introl eq_refl)). f_equal.
+  apply IH. intros a Ha. apply H. right. exact Ha.
+Qed.
+
+Lemma filter_all_false {A} (p : A -> bool) l : (forall a, In a l -> p a = false) -> filter p l = [].
+Proof.
+  induction l as [|x t IH]; intros H; [reflexivity|]. cbn [filter]. rewrite (H x (or_introl eq_refl)).
+  apply IH. intros a Ha. apply H. right. exact Ha.
+Qed.
+
 Section Static.
   Variables (reports controls : list (bool * name * ty)) (sc1 sc0 scF : scope).
   Variables (evs : list event) (devs : list Lower.devent) (eis : list instr) (image : list N).
@@ -383,6 +428,97 @@ Section Static.
           destruct (n =? 18446744073709551615) eqn:E2; [apply N.eqb_eq in E2; lia|reflexivity].
         * reflexivity.
       + unfold init_value, lit_value. destruct (n =? 18446744073709551615); unfold INF32, W64, U64_MAX in *; lia.
+  Qed.
+
+
+  Lemma Hdecl_def_F : forall d, In d decls -> exists i, In i defs /\ decl_def (sc_named scF) d i.
+  Proof.
+    intros d Hd. unfold decls in Hd. rewrite decls_entries, map_map in Hd. apply in_map_iff in Hd.
+    destruct Hd as ([x r] & <- & Hin).
+    destruct (perm_entry_facts _ _ Hin) as (i & v0 & r' & _ & Hi & _ & Hn & Hv & Hg & Hdr & Hres & Hleg' & Hvol & Hrep & _).
+    exists i. split; [exact Hi|]. exists v0, r'. rewrite Hn. rewrite Hres in *. repeat split; assumption.
+  Qed.
+
+  Lemma Hdef_decl_F : forall i, In i defs -> exists d, In d decls /\ decl_def (sc_named scF) d i.
+  Proof.
+    intros i Hi. unfold defs in Hi. apply def_instrs_in in Hi. destruct Hi as (x & r & Hin & Hd).
+    assert (Hp : is_perm r) by (destruct r as [j ty vol|n|b|j ty|j ty|j ty|j ty vol|j ty|]; try discriminate Hd; exact I).
+    pose proof (sc0_perm_entry _ _ Hin Hp) as He.
+    destruct (perm_entry_facts _ _ He) as (i' & v0 & r' & Hd' & _ & Hdd & Hn & Hv & Hg & Hdr & Hres & Hleg' & Hvol & Hrep & _).
+    rewrite Hd in Hd'. inversion Hd'; subst i'.
+    exists (fst (decl_of (x, r))). split; [exact Hdd|]. exists v0, r'. rewrite Hn. rewrite Hres in *. repeat split; assumption.
+  Qed.
+
+  Lemma Hnodup_slots_F : NoDup (map def_slot defs).
+  Proof.
+    apply def_slots_nodup; [apply (si_keys _ sinv_sc0)|].
+    intros x y rx ry Hx Hy Hv Hs. eapply (si_inj _ sinv_sc0); eauto; apply sinv_unique; auto using sinv_sc0.
+  Qed.
+
+  Lemma Hnodup_decls_F : NoDup (map sd_name decls).
+  Proof. rewrite decls_names. destruct wt_clauses as (_ & H & _). exact H. Qed.
+
+  Lemma Hinit_bounded_F : forall d v, In d decls -> sd_init d = Some v -> init_value v < W64.
+  Proof.
+    intros d v Hd Hv. unfold decls in Hd. rewrite decls_entries, map_map in Hd. apply in_map_iff in Hd.
+    destruct Hd as ([x r] & <- & Hin).
+    destruct (perm_entry_facts _ _ Hin) as (i & v0 & r' & _ & _ & _ & _ & Hv0 & _ & _ & _ & _ & _ & _ & Hb).
+    rewrite Hv in Hv0. inversion Hv0; subst. exact Hb.
+  Qed.
+
+  Definition rep_entries : list (name * reg) :=
+    map (fun k => match nth_error reports k with Some (v, n, t) => (n, Report (N.of_nat k) t v) | None => ([], RNone) end) (seq 0 (length reports)).
+  Definition ctl_entries : list (name * reg) :=
+    map (fun k => match nth_error controls k with Some (v, n, t) => (n, Control (N.of_nat k) t v) | None => ([], RNone) end) (seq 0 (length controls)).
+
+  Lemma rep_decls_eq : rep_decls decls = map (fun kv => fst (decl_of kv)) rep_entries.
+  Proof.
+    unfold rep_decls, decls. rewrite decls_entries, map_map. change (decl_entries reports controls) with (rep_entries ++ ctl_entries).
+    rewrite map_app, filter_app.
+    assert (H1 : filter (fun d => sd_report d && match sd_init d with Some _ => true | None => false end) (map (fun kv => fst (decl_of kv)) rep_entries)
+                 = map (fun kv => fst (decl_of kv)) rep_entries).
+    { apply filter_all_true. intros d Hd. apply in_map_iff in Hd. destruct Hd as ([x r] & <- & Hin).
+      assert (Hin' : In (x, r) (decl_entries reports controls)) by (apply in_or_app; left; exact Hin).
+      destruct (perm_entry_facts _ _ Hin') as (i & v0 & r' & _ & _ & _ & _ & Hv0 & _ & _ & _ & _ & _ & Hrep & _).
+      rewrite Hv0, <- Hrep. unfold rep_entries in Hin. apply in_map_iff in Hin. destruct Hin as (k & Hk & Hs). apply in_seq in Hs.
+      destruct (nth_error reports k) as [[[v n] t]|] eqn:E; [inversion Hk; reflexivity|apply nth_error_None in E; lia]. }
+    assert (H2 : filter (fun d => sd_report d && match sd_init d with Some _ => true | None => false end) (map (fun kv => fst (decl_of kv)) ctl_entries) = []).
+    { apply filter_all_false. intros d Hd. apply in_map_iff in Hd. destruct Hd as ([x r] & <- & Hin).
+      assert (Hin' : In (x, r) (decl_entries reports controls)) by (apply in_or_app; right; exact Hin).
+      destruct (perm_entry_facts _ _ Hin') as (i & v0 & r' & _ & _ & _ & _ & _ & _ & _ & _ & _ & _ & Hrep & _).
+      rewrite <- Hrep. unfold ctl_entries in Hin. apply in_map_iff in Hin. destruct Hin as (k & Hk & Hs). apply in_seq in Hs.
+      destruct (nth_error controls k) as [[[v n] t]|] eqn:E; [inversion Hk; reflexivity|apply nth_error_None in E; lia]. }
+    rewrite H1, H2, app_nil_r. reflexivity.
+  Qed.
+
+  Lemma Hnrep_F : N.of_nat (length (rep_decls decls)) = ntr_of defs.
+  Proof.
+    rewrite rep_decls_eq, map_length. unfold rep_entries. rewrite map_length, seq_length.
+    destruct (entries_of_declarations _ _ _ _ Hd1 Hd2) as (_ & Hnp & _ & Hcnt & _).
+    assert (Hcap : N.of_nat (length reports) <= 255).
+    { rewrite <- Hnp. destruct (declare_control_entries _ _ _ Hd2 (proj1 (declare_report_entries _ _ _ Hd1 ebounds_new))) as (_ & _ & Hp & _).
+      rewrite Hp. eapply declare_report_cap; [exact Hd1|]. cbn. lia. }
+    unfold ntr_of. change (fun n i => if reg_is_report (i_res i) then (n + 1) mod 256 else n) with cnt_step.
+    unfold defs. rewrite fold_cnt; [rewrite Hcnt; lia|rewrite Hcnt; lia|].
+    intros x r Hin Hr. assert (Hp : is_perm r) by (unfold is_rep_entry in Hr; cbn in Hr; destruct r; try discriminate Hr; exact I).
+    destruct (perm_entry_facts _ _ (sc0_perm_entry _ _ Hin Hp)) as (i & _ & _ & Hd & _). congruence.
+  Qed.
+
+  Lemma Hrep_slots_F : forall j d, nth_error (rep_decls decls) j = Some d ->
+    exists r, sc_get (sc_named scF) (sd_name d) = Some r /\ slot r = Some (FRep, N.of_nat j).
+  Proof.
+    intros j d Hj. rewrite rep_decls_eq in Hj. unfold rep_entries in Hj. rewrite map_map in Hj.
+    rewrite nth_error_map in Hj. destruct (nth_error (seq 0 (length reports)) j) as [k|] eqn:Hk; [|discriminate Hj].
+    cbn [option_map] in Hj. inversion Hj as [Hd]. clear Hj.
+    assert (Hjk : k = j /\ (j < length reports)%nat).
+    { assert (Hlt : (j < length (seq 0 (length reports)))%nat) by (apply nth_error_Some; congruence).
+      rewrite seq_length in Hlt. rewrite (nth_error_nth' _ 0%nat) in Hk by (rewrite seq_length; exact Hlt).
+      rewrite seq_nth in Hk by exact Hlt. inversion Hk. subst k. split; [reflexivity|exact Hlt]. }
+    destruct Hjk as [-> Hlt].
+    destruct (nth_error reports j) as [[[v n] t]|] eqn:E; [|apply nth_error_None in E; lia].
+    subst d. rewrite decl_of_name. cbn [fst].
+    pose proof (sc0_get_report _ _ _ _ E) as G. destruct (sextF _ _ G) as (r' & GF & Hdr).
+    exists r'. split; [exact GF|]. rewrite (dreg_slot _ _ Hdr). reflexivity.
   Qed.
 
 End Static.
